@@ -100,6 +100,20 @@ func c15Run(front string, keys []kit.KeySpec, cn C15Conn, cacheOn bool, idx int)
 	case "connect_fail":
 		// a port nobody listens on (a just-released ephemeral port could be taken by a concurrent connection's target)
 		addr = kit.SocksAddrFor("127.0.0.1:1", false)
+		if cn.Seed%3 == 0 {
+			// or a host name of 1..255 bytes that does not resolve (253 is the longest legal DNS name, 255 the
+			// longest the address header can carry): the connection still ends exactly once, with a status
+			l := []int{1, 63, 200, 251, 252, 253, 254, 255}[int(cn.Seed/3)%8]
+			name := strings.Repeat("a", 50)
+			for len(name) < l {
+				name += "." + strings.Repeat("b", 50)
+			}
+			name = name[:l-min(l-1, len(".verif.test"))] + ".verif.test"[:min(l-1, len(".verif.test"))]
+			if l == 1 {
+				name = "x"
+			}
+			addr = kit.SocksAddr(name, 1, true)
+		}
 	}
 	var wire []byte
 	if cn.Kind == "cipher" {
@@ -314,6 +328,7 @@ func c15Run(front string, keys []kit.KeySpec, cn C15Conn, cacheOn bool, idx int)
 }
 
 func runC15(c C15Case, info *kit.Info) *kit.Finding {
+	kit.InstallFakeDNS() // before any connection of the case exists: host names of connect_fail scenarios resolve (to nothing) in-process
 	real, err := outline_prometheus.NewServiceMetrics(nil)
 	if err != nil {
 		return kit.Violation("tcpmetrics:setup", "%v", err)
